@@ -20,6 +20,8 @@ def check(model, R, tier):
     R.rule('C07.ATTACH', 'over every valuation: grad_fn (a BackwardFunction around a closure of the wrapper) is stored on the result iff the result requires grad (partial evaluation)', floor=48)
     check_ctor(model, R)
     check_flag_writers(model, R)
+    check_mode_writers(model, R)
+    check_setter_value(model, R)
     check_guards(model, R)
     check_ctx(model, R, 'no_grad', 'gradient__', False)
     check_ctx(model, R, 'retain_grads', 'retain_grads__', True)
@@ -56,6 +58,63 @@ def check_flag_writers(model, R):
                      'writing _requires_grad directly bypasses the checks of the setter / constructor (an integer tensor, or a tensor created under no_grad, could be made to require grad)',
                      '%s:%d' % (fn.mod.relpath, st.lineno))
     R.analysed['requires_grad_flag_writers'] = n
+
+
+def check_mode_writers(model, R):
+    """who may write the global mode flags: the context managers only (save-on-enter / restore-on-exit is decided by C07.CTX on exactly those methods)"""
+    R.rule('C07.MODE-WRITERS', 'the module-level gradient / retain flags are assigned only by __enter__ / __exit__ of their context manager: any other writer (e.g. a function that '
+                               'switches the mode off and then back ON instead of back to what it was) breaks the stack discipline', floor=4)
+    tmod = model.modules['synapgrad.tensor']
+    flags = {}
+    for n in tmod.tree.body:
+        if isinstance(n, ast.Assign) and len(n.targets) == 1 and isinstance(n.targets[0], ast.Name) and n.targets[0].id.endswith('__') and isinstance(n.value, ast.Constant) and isinstance(n.value.value, bool):
+            flags[n.targets[0].id] = n
+    allowed = ('__enter__', '__exit__')
+    seen = 0
+    for fn in model.live_funcs():
+        decl = {x for n in ast.walk(fn.node) if isinstance(n, (ast.Global, ast.Nonlocal)) for x in n.names}
+        for st in body_walk(fn.node):
+            tg = st.targets if isinstance(st, ast.Assign) else ([st.target] if isinstance(st, (ast.AugAssign, ast.AnnAssign)) else [])
+            for t in tg:
+                for x in ([t] if not isinstance(t, (ast.Tuple, ast.List)) else t.elts):
+                    hit = None
+                    if isinstance(x, ast.Name) and x.id in flags and x.id in decl and fn.mod is tmod:
+                        hit = x.id
+                    if isinstance(x, ast.Attribute) and x.attr in flags and model.resolve(fn.mod, x.value) in ('synapgrad.tensor', 'synapgrad'):
+                        hit = x.attr
+                    if hit:
+                        seen += 1
+                        R.ob('C07.MODE-WRITERS', fn.qualname, norm(st)[:80], fn.name in allowed and fn.cls is not None,
+                             'the flag %s may only be written by the __enter__ / __exit__ of its context manager' % hit, '%s:%d' % (fn.mod.relpath, st.lineno))
+            if isinstance(st, ast.Expr) and isinstance(st.value, ast.Call) and norm(st.value.func) in ('setattr',) and any(isinstance(a, ast.Constant) and a.value in flags for a in st.value.args):
+                seen += 1
+                R.ob('C07.MODE-WRITERS', fn.qualname, norm(st)[:80], False, 'mode flag written through setattr', '%s:%d' % (fn.mod.relpath, st.lineno))
+    R.analysed['mode_flag_writers'] = seen
+
+
+def check_setter_value(model, R, P_='C07'):
+    """the requires_grad setter stores exactly the value it was given on every path that does not raise (the global mode gates tensor CREATION, not the flag of a leaf)"""
+    R.rule(P_ + '.SETTER-VALUE', 'the requires_grad setter stores the given value unchanged (in particular independent of the global gradient mode)', floor=1)
+    from sa.peval import PE
+    from sa.poly import P
+    f = model.func(TENSOR + '.requires_grad.setter')
+    vname = f.pos_params[1]
+    bad = []
+    try:
+        for mode in (True, False):
+            outs = PE(model, atoms={'gradient__': mode}, atoms_not_none=True).paths(f, {vname: P.atom(vname)}, max_paths=64)
+            done = [o for o in outs if o.kind in ('fall', 'return')]
+            if not done:
+                bad.append('no completing path with the mode %s' % ('on' if mode else 'off'))
+            for o in done:
+                st = [v for k, v, s_ in o.stores if k.endswith('._requires_grad')]
+                if len(st) != 1 or not (isinstance(st[0], P) and st[0] == P.atom(vname)):
+                    bad.append('mode %s: stores %s under %s' % ('on' if mode else 'off', [getattr(x, 'canon', lambda: repr(x))() if isinstance(x, P) else repr(x) for x in st], o.conds[-2:]))
+    except Incomplete as u:
+        R.incomplete_at(P_ + '.SETTER-VALUE', f.qualname, str(u))
+        return
+    R.ob(P_ + '.SETTER-VALUE', f.qualname, 'self._requires_grad = %s on every completing path, gradient mode on and off' % vname, not bad,
+         'the setter must store the value it was given: %s' % bad[:2], f.loc)
 
 
 def check_ctor(model, R):
